@@ -133,7 +133,8 @@ func (vc *VC) execReturn(ins *ssa.Return) {
 		} else {
 			kind = fmt.Sprintf("post.e%d", i+1)
 		}
-		vc.oblige(kind, vc.cur.pc, t, ins.Pos(), "ensures "+cl.Src)
+		ob := vc.oblige(kind, vc.cur.pc, t, ins.Pos(), "ensures "+cl.Src)
+		vc.obReturn[ob] = ins
 	}
 }
 
@@ -182,9 +183,81 @@ func (vc *VC) callFrame(call *ssa.Call) []frameEntry {
 	return []frameEntry{{allComps(), -1}}
 }
 
+// callName: the name used by callsite clauses.
+func callName(cc *ssa.CallCommon) string {
+	if cc.IsInvoke() {
+		return cc.Method.Name()
+	}
+	if f := cc.StaticCallee(); f != nil {
+		return f.Name()
+	}
+	if b, ok := cc.Value.(*ssa.Builtin); ok {
+		return b.Name()
+	}
+	return ""
+}
+
+// callOrdinal: 1-based position of this call among the calls with the same name, in source order.
+func (vc *VC) callOrdinal(ins *ssa.Call) int {
+	name := callName(ins.Common())
+	n := 1
+	for _, b := range vc.fn.Blocks {
+		for _, i2 := range b.Instrs {
+			c2, ok := i2.(*ssa.Call)
+			if !ok || c2 == ins || callName(c2.Common()) != name {
+				continue
+			}
+			if c2.Pos() < ins.Pos() || (c2.Pos() == ins.Pos() && (c2.Block().Index < ins.Block().Index)) {
+				n++
+			}
+		}
+	}
+	return n
+}
+
+func (vc *VC) checkCallSites(ins *ssa.Call) {
+	if vc.c == nil || len(vc.c.CallSites) == 0 {
+		return
+	}
+	cc := ins.Common()
+	name := callName(cc)
+	var ord int
+	for _, cs := range vc.c.CallSites {
+		if cs.Name != name {
+			continue
+		}
+		if ord == 0 {
+			ord = vc.callOrdinal(ins)
+		}
+		if cs.K != ord {
+			continue
+		}
+		cs.hit = true
+		vc.csHit[cs] = true
+		env := vc.entryEnv()
+		env.heap = vc.cur.heap
+		i := 0
+		if cc.IsInvoke() {
+			env.vars["arg0"] = vc.val(cc.Value)
+			i = 1
+		}
+		for _, a := range cc.Args {
+			env.vars[fmt.Sprintf("arg%d", i)] = vc.val(a)
+			i++
+		}
+		t := vc.compileClause(env, cs.Cl)
+		kind := fmt.Sprintf("callsite.%s%d", name, cs.K)
+		if cs.Cl.Label != "" {
+			kind = "callsite." + cs.Cl.Label
+		}
+		vc.oblige(kind, vc.cur.pc, t, ins.Pos(), fmt.Sprintf("at call %s#%d: %s", name, cs.K, cs.Cl.Src))
+	}
+}
+
 func (vc *VC) execCall(ins *ssa.Call) {
 	cc := ins.Common()
 	h := vc.cur.heap
+	vc.checkCallSites(ins)
 	if cc.IsInvoke() {
 		recv := vc.val(cc.Value)
 		vc.oblige("safety.nil", vc.cur.pc, sNot(sEq(recv.C[0], "0")), ins.Pos(), "method call on nil interface")
